@@ -482,7 +482,7 @@ func representFetchRequest(data map[string]interface{}) []interface{} {
 	}
 	forgottenTopicsData := ""
 	if payload["forgottenTopicsData"] != nil {
-		x, _ := json.Marshal(payload["forgottenTopicsData"].(map[string]interface{}))
+		x, _ := json.Marshal(payload["forgottenTopicsData"])
 		forgottenTopicsData = string(x)
 	}
 	rackId := ""
